@@ -78,10 +78,14 @@ func c11Bases() []c11Base {
 func c11NumVariants(n int, subst bool) int {
 	v := n + 8*n
 	if subst {
-		v += 4 * n
+		v += 4*n + len(c11Windows)*n
 	}
 	return v
 }
+
+// c11Windows are five-byte patterns written over every offset: varints that decode to values next
+// to 2^32 (arithmetic on offsets and positions must not wrap), and a run of continuation bytes.
+var c11Windows = [][]byte{{0xff, 0xff, 0xff, 0xff, 0x0f}, {0xf0, 0xff, 0xff, 0xff, 0x0f}, {0x80, 0x80, 0x80, 0x80, 0x80}}
 
 func c11Variant(data []byte, i int) ([]byte, string) {
 	n := len(data)
@@ -97,8 +101,15 @@ func c11Variant(data []byte, i int) ([]byte, string) {
 	i -= 8 * n
 	vals := []byte{0x00, 0x7f, 0x80, 0xff}
 	out := append([]byte{}, data...)
-	out[i/4] = vals[i%4]
-	return out, fmt.Sprintf("byte@%d=%02x", i/4, vals[i%4])
+	if i < 4*n {
+		out[i/4] = vals[i%4]
+		return out, fmt.Sprintf("byte@%d=%02x", i/4, vals[i%4])
+	}
+	i -= 4 * n
+	w := c11Windows[i%len(c11Windows)]
+	at := i / len(c11Windows)
+	copy(out[at:], w) // cut at the end of the file
+	return out, fmt.Sprintf("window@%d=%x", at, w)
 }
 
 func c11Queries() []query.Q {
@@ -470,5 +481,5 @@ func TestVerifC11(t *testing.T) {
 		r.Nontrivial("page")
 	}
 	r.Assume("files are not modified after being loaded; a variant that keeps a child busy for 60 s is counted as a hang (µs-scale work otherwise)")
-	r.Finish("case = (base shard simple|symbols|compound, variant): every truncation, every single-bit flip and every byte set to 00/7f/80/ff (quick: substitutions for the simple shard only, bit flips of the other shards only in their last 600 bytes: TOC and metadata); each variant is loaded beside a healthy shard through loader.load and 6 queries × 2 modes + List run on the shardedSearcher; oracle: process survives, calls return, healthy repository's results unchanged; family batch: every sequence of <= 5 keys over {healthy, truncated, empty, garbage, cut TOC} in one load call with GOMAXPROCS=2: load returns and exactly the healthy shards are served; family page: a 12 KB shard cut to 1-3 pages exactly (and one byte less) with trailers pointing at / behind the end of the file")
+	r.Finish("case = (base shard simple|symbols|compound, variant): every truncation, every single-bit flip, every byte set to 00/7f/80/ff and every 5-byte window overwritten with varints next to 2^32 / continuation bytes (quick: substitutions for the simple shard only, bit flips of the other shards only in their last 600 bytes: TOC and metadata); each variant is loaded beside a healthy shard through loader.load and 6 queries × 2 modes + List run on the shardedSearcher; oracle: process survives, calls return, healthy repository's results unchanged; family batch: every sequence of <= 5 keys over {healthy, truncated, empty, garbage, cut TOC} in one load call with GOMAXPROCS=2: load returns and exactly the healthy shards are served; family page: a 12 KB shard cut to 1-3 pages exactly (and one byte less) with trailers pointing at / behind the end of the file")
 }
